@@ -11,7 +11,7 @@ trap 'rm -rf "$SCRATCH"' EXIT
 cp -r /repo/. "$SCRATCH/"
 case "$PATCH" in
   revert:*) C="${PATCH#revert:}"; ( cd "$SCRATCH" && git diff "$C" "$C^" | git apply ) || { echo "SELFTEST: cannot revert $C"; exit 2; } ;;
-  *) ( cd "$SCRATCH" && git apply "$PATCH" ) || { echo "SELFTEST: patch does not apply: $PATCH"; exit 2; } ;;
+  *) ( cd "$SCRATCH" && { git apply "$PATCH" 2>/dev/null || git apply -3 "$PATCH" 2>/dev/null || patch -p1 -F3 -s --no-backup-if-mismatch < "$PATCH" >/dev/null 2>&1; } ) || { echo "SELFTEST: patch does not apply: $PATCH"; exit 2; } ;;
 esac
 ( cd "$SCRATCH" && go build ./... ) || { echo "SELFTEST: mutant does not compile"; exit 2; }
 if [ "${SELFTEST_SUITE:-0}" = 1 ]; then
